@@ -274,6 +274,15 @@ fn invalid_literals() -> Vec<String> {
         }
     }
     v.extend(["1.2.3", "1..2", "1.2.3.4", "0..", "9.9.9", "1e1e1", "3.e2"].iter().map(|s| s.to_string()));
+    // the same malformations after a mantissa that is already full (28 and 29 digits)
+    for base in ["0.1234567890123456789012345678", "1.000000000000000000000000000", "7922816251426433759354395033", "0.12345678901234567890123456789", "1.00000000000000000000000000001"] {
+        for suf in ["..", ".2.3", "e5", "E-3", "e", ".5.", "e+2"] {
+            if suf.starts_with('.') && !base.contains('.') && suf == ".5." {
+                continue;
+            }
+            v.push(format!("{}{}", base, suf));
+        }
+    }
     v
 }
 
